@@ -195,6 +195,41 @@ def exhaustive(tier):
     return tier == "thorough"
 
 
+IMPL_ONLY = {"U.huge_from_be_slice", "U.huge_from_le_slice", "I.huge_from_be_slice", "I.huge_from_le_slice"}
+
+
+def sequential_cases(tier):
+    """thorough tier only, implementation only, one process at a time: slices whose LENGTH does not fit a u32
+    (head ++ 2^32 fill bytes ++ tail, built inside the harness).  Expected results follow from the property text
+    (and from theorems C15_U/I_from_*_slice, which hold for byte strings of any length): Some(v) iff every byte beyond
+    the integer's width is padding (0x00, or the sign extension for signed targets).  Skipped when less than 12 GiB of
+    memory is free."""
+    if tier != "thorough":
+        return []
+    try:
+        avail = [int(l.split()[1]) for l in open("/proc/meminfo") if l.startswith("MemAvailable")][0] // (1 << 20)
+    except Exception:
+        avail = 0
+    if avail < 12:
+        return []
+    out = []
+    E = "L:"
+    # unsigned, big-endian: 2^32 zero bytes of padding then the value 0x2a / a non-zero byte in the padding region
+    out.append(("U.huge_from_be_slice 64 1 Z:20 Z:0 %s L:2a" % E, "Some(L:2a)", "2^32 zero bytes + 0x2a, be"))
+    out.append(("U.huge_from_be_slice 64 1 Z:20 Z:0 L:1 L:0,0,0,0,0,0,0,2a", "None", "0x01 + 2^32 zero bytes + 8 value bytes, be: not representable"))
+    out.append(("U.huge_from_be_slice 8 3 Z:20 Z:0 L:0,0,5 L:0,0,1,2,3", "None", "non-zero byte 2^32+2 positions above the value, be, u8 digits"))
+    out.append(("U.huge_from_be_slice 32 2 Z:20 Z:0 L:0 L:1,2,3,4,5,6,7,8", "Some(L:5060708,1020304)", "2^32+1 zero bytes + 8 value bytes, be, u32 digits"))
+    # unsigned, little-endian: value first, padding after
+    out.append(("U.huge_from_le_slice 64 1 Z:20 Z:0 L:2a %s" % E, "Some(L:2a)", "0x2a + 2^32 zero bytes, le"))
+    out.append(("U.huge_from_le_slice 16 2 Z:20 Z:0 L:1,2,3,4 L:0,0,1", "None", "non-zero byte 2^32+2 positions above the value, le"))
+    # signed: 0xff padding of a negative value / a padding byte of the wrong sign
+    out.append(("I.huge_from_be_slice 64 1 Z:20 Z:ff %s L:d6" % E, "Some(L:ffffffffffffffd6)", "2^32 0xff bytes + 0xd6 = -42, be"))
+    out.append(("I.huge_from_be_slice 8 2 Z:20 Z:ff L:0 L:ff,d6", "None", "0x00 above 2^32 0xff bytes, be: sign mismatch"))
+    out.append(("I.huge_from_le_slice 32 1 Z:20 Z:ff L:d6,ff,ff,ff %s" % E, "Some(L:ffffffd6)", "-42 + 2^32 0xff bytes, le"))
+    out.append(("I.huge_from_le_slice 64 1 Z:20 Z:0 L:d6,ff,ff,ff,ff,ff,ff,ff %s" % E, "None", "negative value + 2^32 zero bytes, le: sign mismatch"))
+    return out
+
+
 RULE = ("slices: EVERY length 0..2*BYTES+2 at every configuration, contents: all 0x00, all 0xff, random, the boundary bytes "
         "00/01/7f/80/ff at the first byte, the last byte, the top retained byte and the first excess byte (over random, "
         "zero-padded, ff-padded and sign-consistent bases), zero padding with one non-zero excess byte (lowest / highest / "
@@ -203,7 +238,8 @@ RULE = ("slices: EVERY length 0..2*BYTES+2 at every configuration, contents: all
         "over {00,01,7f,80,ff} of length <= 4 (thorough: <= 6) at the 7 smallest configurations; thorough: all strings of "
         "length <= 2 at 8 bits, (64,128) with every length and a rotating pattern subset. to_be/from_be/to_le/from_le: boundary "
         "grid + boundary-biased values per op x config, thorough all 256 values at 8 bits.  With VERIF_NIGHTLY=1 (nightly "
-        "harness build): to_*_bytes on the same value mixture, from_*_bytes on boundary-byte arrays.  Non-trivial = a "
+        "harness build): to_*_bytes on the same value mixture, from_*_bytes on boundary-byte arrays.  Thorough, implementation only: "
+        "ten slices of more than 2^32 bytes (padding region longer than a u32 can count), expected result from the theorem.  Non-trivial = a "
         "non-empty, not all-zero slice / a value that is not its own byte reversal (to_be, from_be) or non-zero.")
 
 
